@@ -284,6 +284,30 @@ def malformed_builds(kinds):
                 yield dep_kind, how, True
             except BaseException:  # noqa: BLE001
                 yield dep_kind, how, False
+            if dep_kind == "setup-on-arg":
+                # the DAG argument may have a DEFAULT value: it is an argument all the same (every call may pass another
+                # value), never a constant of the description
+                def make_d(how=how, b=b, c=c):
+                    def describe(x=5):
+                        ok = c()
+                        if how == "pos":
+                            return b(x)
+                        if how == "kw":
+                            return b(k=x)
+                        if how == "flag":
+                            return b(twz_active=x)
+                        if how == "indexed":
+                            return b(x[0])
+                        if how == "via-op":
+                            return b(x == 1)
+                        return b(ok, x)
+                    describe.__name__ = describe.__qualname__ = "describe"
+                    return describe
+                try:
+                    threadsafe_make_dag(make_d(), 1, False)
+                    yield dep_kind + "(defaulted)", how, True
+                except BaseException:  # noqa: BLE001
+                    yield dep_kind + "(defaulted)", how, False
         if dep_kind != "normal-on-debug":
             continue
         # the dependency may also arise through a DAG called inside the DAG: its argument stubs and (with
@@ -362,7 +386,8 @@ def gen_description(rng, max_n=6):
                 s["preds"] = [p for p in s["preds"] if specs[p]["setup"]]
                 s["arg"] = False
             s["how"] = {k: v for k, v in s["how"].items() if int(k) in s["preds"]}
-    return dict(n=n, specs=specs)
+    # the DAG's argument may be required or defaulted: the rules do not care
+    return dict(n=n, specs=specs, arg_default=rng.random() < 0.5)
 
 
 def description_rules(sc):
@@ -408,6 +433,11 @@ def build_description(sc):
                 pos.append(x)
             vals.append(nodes[i](*pos, **kw))
         return tuple(vals)
+    if sc.get("arg_default"):
+        describe_required = describe
+
+        def describe(x=5):      # noqa: F811
+            return describe_required(x)
     describe.__name__ = describe.__qualname__ = "described"
     try:
         threadsafe_make_dag(describe, 2, False)
